@@ -2126,16 +2126,21 @@ func parseForeignContent(p *parser) bool {
 			p.acknowledgeSelfClosingTag()
 		}
 	case EndTagToken:
-		if strings.EqualFold(p.oe[len(p.oe)-1].Data, p.tok.Data) {
+		// The bottom of the stack is never popped: when it is reached (only
+		// possible with a foreign context element, where the stack may hold
+		// nothing but the fragment's root <html> element) the token is left
+		// to the current insertion mode. "If node is the topmost element in
+		// the stack of open elements, then return. (fragment case)".
+		if len(p.oe) > 1 && strings.EqualFold(p.oe[len(p.oe)-1].Data, p.tok.Data) {
 			p.oe = p.oe[:len(p.oe)-1]
 			return true
 		}
-		for i := len(p.oe) - 1; i >= 0; i-- {
+		for i := len(p.oe) - 1; i > 0; i-- {
 			if strings.EqualFold(p.oe[i].Data, p.tok.Data) {
 				p.oe = p.oe[:i]
 				return true
 			}
-			if i > 0 && p.oe[i-1].Namespace == "" {
+			if p.oe[i-1].Namespace == "" {
 				break
 			}
 		}
